@@ -816,9 +816,14 @@ def docs_meshes(ctx, k):
             continue
         tags = Tags()
         f2t = np.asarray(m.f2t)
-        for nm, arr in (m.subdomains or {}).items():
-            tags.add_sub(nm, np.asarray(arr), "docs-subdomain")
         skip = False
+        for nm, arr in (m.subdomains or {}).items():
+            a = np.asarray(arr)
+            if a.size and (a.min() < 0 or a.max() >= m.t.shape[1] or len(set(a.tolist())) != a.size):
+                # junk read from a foreign file (e.g. 'gmsh:bounding_entities' = [-2, 3] in annulus.msh): not a set of
+                # cells, outside the statement (the import of foreign files is not judged here)
+                skip = True
+            tags.add_sub(nm, a, "docs-subdomain")
         for nm, arr in (m.boundaries or {}).items():
             ori = getattr(arr, "ori", None)
             a = np.asarray(arr)
